@@ -16,7 +16,9 @@ def gaf_schema(repo: Repo, rule="schema"):
     """attr name of the parsed record -> column index, read off GAF.parse_gaf_line:
     the record constructor call in the return statement, the constructor's `self.x = param`
     assignments, and the `fields[i]` subscripts feeding each argument."""
-    f = repo.func("gaftools.gaf", "GAF.parse_gaf_line", rule)
+    from ..core import local_defs, tail_inlined
+
+    f = tail_inlined(repo, repo.func("gaftools.gaf", "GAF.parse_gaf_line", rule))
     # name of the list of columns: variable assigned from <...>.split("\t")
     fields_var = None
     for n in walk_own(f.node):
@@ -25,18 +27,41 @@ def gaf_schema(repo: Repo, rule="schema"):
                 fields_var = n.targets[0].id
     if fields_var is None:
         raise AnalysisError(rule, f.where(), "cannot find the variable holding the tab-split columns")
+    # per-column tables: `for c in (1, 2, ...): ... T[c] = g(fields[c])` makes T[k] a view of column k
+    tables = {}
+    for lp in walk_own(f.node):
+        if isinstance(lp, ast.For) and isinstance(lp.target, ast.Name):
+            it = lp.iter
+            if isinstance(it, ast.Name) and it.id in f.module.consts:
+                it = f.module.consts[it.id]
+            if isinstance(it, (ast.Tuple, ast.List)) and all(isinstance(const_value(e), int) for e in it.elts):
+                c = lp.target.id
+                for st in ast.walk(lp):
+                    if isinstance(st, ast.Assign) and isinstance(st.targets[0], ast.Subscript) and isinstance(st.targets[0].value, ast.Name) and norm(st.targets[0].slice) == c:
+                        subs = {norm(x) for x in ast.walk(st.value) if isinstance(x, ast.Subscript) and isinstance(x.value, ast.Name) and x.value.id == fields_var}
+                        if subs == {f"{fields_var}[{c}]"}:
+                            tables[st.targets[0].value.id] = {const_value(e) for e in it.elts}
+
+    def cols_of(expr):
+        cols = set()
+        for s in ast.walk(expr):
+            if isinstance(s, ast.Subscript) and isinstance(s.value, ast.Name):
+                c = const_value(s.slice)
+                if s.value.id == fields_var and isinstance(c, int):
+                    cols.add(c)
+                elif s.value.id in tables and c in tables[s.value.id]:
+                    cols.add(c)
+        return cols
+
     # local var -> column index
     var_col = {}
-    for n in walk_own(f.node):
-        if isinstance(n, ast.Assign) and len(n.targets) == 1 and isinstance(n.targets[0], ast.Name):
-            cols = set()
-            for s in ast.walk(n.value):
-                if isinstance(s, ast.Subscript) and isinstance(s.value, ast.Name) and s.value.id == fields_var:
-                    c = const_value(s.slice)
-                    if isinstance(c, int):
-                        cols.add(c)
+    for name, ds in local_defs(f.node).items():
+        for d in ds:
+            if d is None:
+                continue
+            cols = cols_of(d)
             if len(cols) == 1:
-                var_col.setdefault(n.targets[0].id, set()).update(cols)
+                var_col.setdefault(name, set()).update(cols)
     ret = None
     for n in walk_own(f.node):
         if isinstance(n, ast.Return) and isinstance(n.value, ast.Call):
